@@ -41,6 +41,9 @@ def gen_histories(ck, mode, n, depth, seed, preload=0):
         if k not in seen:
             seen.add(k)
             h[0]["preload"] = preload
+            if len(out) % 2:
+                for x in h:
+                    x["by_object"] = True
             out.append(h)
     return out
 
@@ -64,7 +67,9 @@ def apply(w, wn, h):
     if op == "add_node":
         n, t, p, c = a
         if t == "J":
-            wn.add_junction(n, base_demand=0.001, demand_pattern=p or None, elevation=1.0)
+            # the pattern may be given by name or as the Pattern object (every other history)
+            pat = (wn.get_pattern(p) if h.get("by_object") else p) if p else None
+            wn.add_junction(n, base_demand=0.001, demand_pattern=pat, elevation=1.0)
         elif t == "T":
             wn.add_tank(n, elevation=10.0, init_level=2.0, min_level=0.0, max_level=5.0, diameter=4.0, vol_curve=c or None)
         else:
@@ -117,6 +122,14 @@ def apply(w, wn, h):
         wn.get_node(a[0]).vol_curve_name = a[1]
     elif op == "set_head_pattern":
         wn.get_node(a[0]).head_pattern_name = a[1]
+    elif op == "set_source_node":
+        wn.get_source(a[0]).node_name = a[1]
+    elif op == "clear_head_pattern":
+        wn.get_node(a[0]).head_pattern_name = None
+    elif op == "clear_speed_pattern":
+        wn.get_link(a[0]).speed_pattern_name = None
+    elif op == "clear_vol_curve":
+        wn.get_node(a[0]).vol_curve_name = None
     elif op == "add_demand":
         wn.get_node(a[0]).add_demand(0.002, a[1])
     else:
@@ -213,6 +226,38 @@ def project(w, wn):
                 errs.append("%s registry has usage records for missing elements %s" % (nm, sorted(orph)))
     except Exception as e:
         errs.append("usage views raised %s: %s" % (type(e).__name__, str(e)[:60]))
+    # the usage maps must be exactly the references the elements themselves hold (Registry!View evaluated on the real
+    # model's primary data): every reference has its record and every record a live reference
+    try:
+        pu, cu, nu = {p: set() for p in wn.pattern_name_list}, {c: set() for c in wn.curve_name_list}, {n: set() for n in wn.node_name_list}
+        for n, j in wn.junctions():
+            for dmd in j.demand_timeseries_list:
+                if dmd.pattern_name and dmd.pattern_name in pu:
+                    pu[dmd.pattern_name].add((n, "Junction"))
+        for n, r in wn.reservoirs():
+            if r.head_pattern_name in pu:
+                pu[r.head_pattern_name].add((n, "Reservoir"))
+        for n, t in wn.tanks():
+            if t.vol_curve_name in cu:
+                cu[t.vol_curve_name].add((n, "Tank"))
+        for n, l in wn.links():
+            nu[l.start_node_name].add((n, l.link_type)); nu[l.end_node_name].add((n, l.link_type))
+        for n, pmp in wn.pumps():
+            if pmp.speed_pattern_name in pu:
+                pu[pmp.speed_pattern_name].add((n, "Pump"))
+            if getattr(pmp, "pump_curve_name", None) in cu:
+                cu[pmp.pump_curve_name].add((n, "Pump"))
+        for n, src in wn.sources():
+            nu[src.node_name].add((n, "Source"))
+            if src.strength_timeseries.pattern_name in pu:
+                pu[src.strength_timeseries.pattern_name].add((n, "Source"))
+        for reg, want, nm in ((wn.patterns, pu, "pattern"), (wn.curves, cu, "curve"), (wn.nodes, nu, "node")):
+            for k, w_ in want.items():
+                got = set(tuple(x) for x in (reg.get_usage(k) or []))
+                if got != w_:
+                    errs.append("%s usage of %s is %s but the elements refer to it as %s" % (nm, "<name>", sorted(got), sorted(w_)))
+    except Exception as e:
+        errs.append("reference scan raised %s: %s" % (type(e).__name__, str(e)[:60]))
     try:
         d = wn.describe(level=1)
         got = (d["Nodes"]["Junctions"], d["Nodes"]["Tanks"], d["Nodes"]["Reservoirs"], d["Links"]["Pipes"], d["Links"]["Pumps"],
@@ -271,6 +316,20 @@ def replay(hist):
                                                                                json.dumps(val)[:120])))
         if out:
             break
+    if not out and hist and hist[0].get("by_object"):
+        # a model produced by the INP reader must be as consistent as one built through the API
+        import tempfile, os, shutil
+        d = tempfile.mkdtemp(prefix="c14_", dir=common.scratch())
+        try:
+            f = os.path.join(d, "m.inp")
+            w.network.write_inpfile(wn, f)
+            _, errs = project(w, w.network.read_inpfile(f))
+            for e in errs:
+                out.append((len(hist) - 1, "C14.views_agree", "after write_inpfile / read_inpfile of the final model: %s" % e))
+        except Exception as e:
+            pass           # models that cannot be written (C12 judges the round trip itself)
+        finally:
+            shutil.rmtree(d, ignore_errors=True)
     return out
 
 
